@@ -144,13 +144,13 @@ def run_property(ctx, pid):
     # floor for a non-replay run: about 70 % of the histories of the quick tier
     ctx.min_evaluations = 300
     low = pid.lower()
-    status = vlib.proof_status(pid, extra_targets=["C04/Extract.v", "C04/CrossCheck.v"])
+    status = vlib.proof_status(pid, extra_targets=["C04/Extract.v", "C04/CrossCheck.v", "C01/Extract.v"])
     if any("No rule to make target" in p for p in status["problems"]):
         # another stream removed a scratch .v file between coq_makefile and make: build again
-        status = vlib.proof_status(pid, extra_targets=["C04/Extract.v", "C04/CrossCheck.v"])
+        status = vlib.proof_status(pid, extra_targets=["C04/Extract.v", "C04/CrossCheck.v", "C01/Extract.v"])
     ctx.proof_gate(status)
     drv = vlib.build_ocaml_driver("c04_driver", os.path.join(vlib.COQ, "extracted"),
-                                  os.path.join(HERE, "driver", "c04_driver.ml"), only=["c04_model"])
+                                  os.path.join(HERE, "driver", "c04_driver.ml"), only=["c04_model", "c01_model"])
     exe, blog = build_harness(ctx)
     if exe is None:
         ctx.violation("harness-build-failed", "the Go harness / overlay hooks no longer build against the repository: " + blog[-800:],
@@ -181,20 +181,21 @@ def run_property(ctx, pid):
     mk = re.search(r"KINDS result=(\d+) state=(\d+) histories=(\d+)", mlog)
     kind_counts = {"result": int(mk.group(1)), "state": int(mk.group(2)), "histories": int(mk.group(3))} if mk else {}
     mc = re.search(r"COMPARED results=(\d+) states=(\d+)", mlog)
-    me = re.search(r"^END (\d+) (\d+) (\d+) (\d+)$", mlog, re.M)
+    me = re.search(r"^END (\d+) (\d+) (\d+) (\d+) (\d+)$", mlog, re.M)
+    m1 = re.search(r"^C01 compared=(\d+) disagreements=(\d+)$", mlog, re.M)
     # the driver must have processed exactly what the harness generated: a truncated trace, a driver that
     # stopped early or compared nothing shows nothing
     count_problems = []
     if not me:
         count_problems.append("the trace has no END line (truncated or not written completely)")
-    if m and mc and me:
-        want = {"cases": summ.get("cases"), "olines": summ.get("olines"), "rlines": summ.get("rlines"), "dlines": summ.get("dlines")}
-        got = {"cases": int(m.group(1)), "olines": int(m.group(2)), "rlines": int(mc.group(1)), "dlines": int(mc.group(2))}
-        endl = {"cases": int(me.group(1)), "olines": int(me.group(2)), "rlines": int(me.group(3)), "dlines": int(me.group(4))}
+    if m and mc and me and m1:
+        want = {"cases": summ.get("cases"), "olines": summ.get("olines"), "rlines": summ.get("rlines"), "dlines": summ.get("dlines"), "clines": summ.get("clines")}
+        got = {"cases": int(m.group(1)), "olines": int(m.group(2)), "rlines": int(mc.group(1)), "dlines": int(mc.group(2)), "clines": int(m1.group(1))}
+        endl = {"cases": int(me.group(1)), "olines": int(me.group(2)), "rlines": int(me.group(3)), "dlines": int(me.group(4)), "clines": int(me.group(5))}
         if got != want or endl != want:
             count_problems.append("harness generated %s, END line says %s, driver processed %s" % (want, endl, got))
-    elif m and not mc:
-        count_problems.append("the driver did not report how many results / states it compared")
+    elif m and not (mc and m1):
+        count_problems.append("the driver did not report how many results / states / geometry decisions it compared")
     # property-level failures found on the implementation
     mine = [f for f in summ["fails"] if f["prop"] == low]
     shrunk = 0
@@ -219,6 +220,13 @@ def run_property(ctx, pid):
                       "Properties/%s.v no longer speak about this code: %s" % (mism, kind_counts, pid, (first.group(0) if first else mlog[-600:])[:900]),
                       {"correspondence": "props/C04 step-by-step result/state comparison", "driver_output": mlog[:4000]},
                       found_input=bool(mine))
+    # the geometry oracle: the implementation's accept / layout-refusal decision of every geometric call
+    # against the extracted layout model of the C01/C07 stream (which proves *_accepted_iff_fits)
+    if m1 and int(m1.group(2)) != 0 and not (mism < 0 or rc2 != 0):
+        firstc = re.search(r"C01-DISAGREES.*", mlog)
+        ctx.violation(low + "-oracle-disagrees-with-layout-model", "the geometry decision the C04 model takes as an oracle bit is not the decision of the "
+                      "C01/C07 layout model in %s call(s): %s" % (m1.group(2), firstc.group(0)[:600] if firstc else ""),
+                      {"driver_output": "\n".join(re.findall(r"C01-DISAGREES.*", mlog))[:4000]}, found_input=bool(mine))
     if count_problems and not (mism < 0 or rc2 != 0):
         ctx.violation(low + "-model-compared-too-few", "; ".join(count_problems),
                       {"driver_output": mlog[-2000:], "summary": {k: summ.get(k) for k in ("cases", "steps", "olines", "rlines", "dlines")}},
@@ -242,6 +250,7 @@ def run_property(ctx, pid):
         "distribution": summ["hist"],
         "model_mismatches": mism,
         "model_mismatch_kinds": kind_counts,
+        "geometry_oracle_vs_layout_model": {"calls": int(m1.group(1)), "disagreements": int(m1.group(2))} if m1 else None,
         "model_compared": {"results": int(mc.group(1)), "states": int(mc.group(2))} if mc else None,
         "property_predicate_failures": sorted(f["sig"] for f in mine),
         "samples": samples,
@@ -253,7 +262,9 @@ def run_property(ctx, pid):
             "Go harness props/C04/harness (generators, executor, classification of errors, snapshots, declarative preconditions), "
             "overlay hooks props/C04/overlay/verif_c04.go (read-only accessors), shared evaluators props/common/vinv",
             "model coq/C04/{State,Ops,Step,Refs,Reg}.v (layers 1, 3, 2) is a hand-written restatement of the Go mutators; tied by the step-by-step comparison above (the replay runs step2, the outermost layer, and compares every component of all three layers); "
-            "NodeID/MessageID/CANID (uint32) and int modelled as unbounded Z (arguments stay in range); payload geometry abstracted by an oracle bit",
+            "NodeID/MessageID/CANID (uint32) and int modelled as unbounded Z (arguments stay in range); payload geometry abstracted by an oracle bit, "
+            "which the driver checks call by call against the extracted layout model of the C01/C07 stream (coq/C01; harness/c01bridge.go translates the calls)",
+            "thorough tier: a sample of histories is additionally replayed inside Coq by vm_compute (coq/C04/CrossCheck.v): for it extraction and OCaml are not trusted",
         ],
     })
     if not ctx.replay and summ.get("refused", 0) < 0.40 * fall:
